@@ -30,6 +30,12 @@ fn arg(args: &[String], name: &str, default: &str) -> String {
 
 fn main() {
     util::silence_panics();
+    // VERIF_LOG_LEVEL=trace: run with the `log` facade's maximum level raised (no logger installed), so that
+    // code inside logging macros in ckc-rs is evaluated as it is in a program that logs
+    let log_level = std::env::var("VERIF_LOG_LEVEL").unwrap_or_default();
+    if log_level == "trace" {
+        log::set_max_level(log::LevelFilter::Trace);
+    }
     let args: Vec<String> = std::env::args().collect();
     if args.len() < 3 {
         eprintln!("usage: harness replay|trace <ID> --gen DIR --tier T --seed N --out FILE | replay-case FILE");
@@ -72,6 +78,7 @@ fn main() {
                 j["tier"] = json!(tier);
                 j["seed"] = json!(seed);
                 j["profile"] = json!(if cfg!(debug_assertions) { "checked" } else { "release" });
+                j["log_level"] = json!(if log_level == "trace" { "trace" } else { "default" });
                 std::fs::write(&out, serde_json::to_string_pretty(&j).unwrap()).expect("write report");
                 std::process::exit(if rep.ok() { 0 } else { 1 });
             } else {
